@@ -24,3 +24,15 @@ func (ctrler *EVMCtrler) VerifLastRoot() ([]byte, int64) {
 func (ctrler *EVMCtrler) VerifState() *StateDBWrapper {
 	return ctrler.stateDBWrapper
 }
+
+// VerifCloseRest closes the EVM database when Close did not (Close reaches it only through the
+// state wrapper of a block, which does not exist before the first BeginBlock).
+func (ctrler *EVMCtrler) VerifCloseRest() {
+	ctrler.mtx.Lock()
+	defer ctrler.mtx.Unlock()
+
+	if ctrler.ethDB != nil {
+		_ = ctrler.ethDB.Close()
+		ctrler.ethDB = nil
+	}
+}
